@@ -268,6 +268,7 @@ func runRound(rp roundPlan) {
 	}
 	pools.finish(rp)
 	checkSharedLoggers(rp)
+	loggerRegistryPhase(rp)
 	for g := 0; g < rp.G; g++ {
 		per := map[int][2]int{} // k -> (conclusive, with >= 16 goroutines active)
 		for _, e := range results[g] {
@@ -336,12 +337,15 @@ func TestCheck(t *testing.T) {
 		"Pipelines (seeded): enc = fresh enc/v1 Encrypt->Decrypt per run with own message (lengths 0-1200 around the 512-byte header read step, k*64KiB-17..+17 for k=1..3, random <= 200 KiB), own key-encryption key, the 7 key-wrap algorithm names, 3 cipher options, key names of 1-300 bytes, chunked/whole/streamed readers, slow consumers, wrap/unwrap callbacks that Gosched or sleep, and 14 deliberately invalid document shapes (wrong key, failing unwrap, replaced MAC/manifest/scheme line, cuts inside the header, flipped/truncated segments) compared by decrypt error text, stream error text and the plaintext delivered; "+
 		"srcerr = Encrypt or Decrypt (over the reference run's document) whose SOURCE reader returns a non-EOF error before any data / in the middle of a segment / exactly at a segment boundary / together with the last data / inside the header, compared by error text and by what was delivered before it; abandon = the consumer reads a prefix of the Encrypt or Decrypt output and closes the reader; the first pipeline of goroutines 0-3 of every round is a srcerr, of goroutines 4-5 an abandon, so they run alone beforehand, at the start of the concurrent phase and again at the start of the second loop; "+
 		"dec = the document produced by the reference run decrypted again concurrently (bit-identical input); sym = EncryptSymmetric/DecryptSymmetric or crypto.Encrypt/Decrypt over all 19 symmetric names with own key/nonce/AAD, with tampered tags; asym = the 5 RSA encryption names and 10 signature names with per-goroutine jwk keys; keys = SerializeKey/ParseKey/pem round trips; cron = ParseStandard and 6 custom parsers over valid and invalid specs, descriptors and TZ prefixes; log = logger.NewLogger under fresh distinct names (JSON and text output into an own buffer, lines compared without time) and under names shared by several goroutines (same instance), cron.PrintfLogger/VerbosePrintfLogger; pool = byteslicepool Get/Resize/Put cycles on 3 shared and per-goroutine pools under the ownership monitor; every slice is Put filled with its owner's non-zero stamp, and a Get that returns a backing array the monitor saw Put before (same element-0 address; the monitor pins every array it tracks) must show zeros in the first L bytes (L = length at the last Put) both through b[:cap(b)] and through Resize(b, L) - also run as a 48-step one-goroutine Get/fill/Put loop at the start of every round. "+
+		"After the pipelines of a round a registry phase runs: one goroutine calls logger.ApplyOptionsToLoggers 5 times (seeded level/JSON/app id) while 6 goroutines look up existing names and fresh names (own and common ones) with logger.NewLogger, 5 look-ups per Apply, started when that Apply starts; judged: valid options accepted, loggers registered before an Apply started have its level when it returned, the applier's own buffer-backed loggers write JSON/text and the app id as applied, equal names give one instance; defaults are re-applied at the end. "+
 		"distinct = distinct pipeline descriptions; non-trivial = at least one of its concurrent runs started while >= 16 goroutines of the round were active. Both builds (-race 'main', 'plain') run the same plan; counters prefixed main./plain. split them.")
 	rec.Note("require", []string{"main.pipelines", "plain.pipelines", "gomaxprocs.2.rounds", "gomaxprocs.4.rounds", "gomaxprocs.16.rounds",
 		"enc.same_as_alone.real_work", "dec.same_as_alone.real_work", "sym.same_as_alone.real_work", "asym.same_as_alone.real_work", "keys.same_as_alone.real_work",
 		"cron.same_as_alone.real_work", "log.same_as_alone.real_work", "pool.same_as_alone.real_work", "srcerr.same_as_alone.real_work", "abandon.same_as_alone.real_work",
 		"enc.source_error_pipelines", "enc.abandoned_stream_pipelines", "enc.source_error.encrypt.mid-segment", "enc.source_error.decrypt.mid-segment", "enc.source_error.encrypt.segment-boundary", "enc.source_error.decrypt.segment-boundary",
 		"enc.source_error.encrypt.before-any-data", "enc.source_error.encrypt.with-last-data", "enc.source_error.decrypt.with-last-data", "enc.slow_consumer_streams",
+		"log.registry.applies", "log.registry.lookups_fresh_names", "log.registry.lookups_existing_names", "main.log.registry.fresh_inserts_during_apply", "plain.log.registry.fresh_inserts_during_apply",
+		"log.registry.loggers_level_checked", "log.registry.own_logger_lines_checked", "cron.new_addfunc_calls",
 		"enc.invalid_documents_same_error", "enc.unwrap_callback_pauses", "enc.streamed_decrypts", "enc.len.around_512_header_step", "enc.len.around_64KiB_boundary",
 		"pool.gets", "pool.gets_recycled", "pool.stamp_checks", "pool.recycled_gets_checked_for_previous_owner_bytes", "pool.recycled_gets_checked.concurrent_phase",
 		"pool.sequential.recycled_gets_checked_for_previous_owner_bytes", "log.shared_name_lookups", "log.shared_names_with_several_goroutines",
